@@ -415,6 +415,8 @@ def run_cases(ctx, cases):
                 dist["fit:" + ob["model"]] += 1
                 dist["fit-via:" + ob["via"]] += 1
                 dist["fit-range" if ob["range"] else "fit-norange"] += 1
+                if ob.get("on") == "hist":
+                    dist["fit-on-histogram"] += 1
             if ob["t"] == "hist":
                 dist["hist:" + ("edges" if isinstance(ob["bins"], list) else
                                 "bins+range" if ob["range"] else "bins")] += 1
